@@ -68,6 +68,8 @@ def solve_campaign(ctx, n_systems, gen_kw=None, case_kw=None, filt=None, variant
                 post(s, cases, rng)
             if rng.random() < 0.35:
                 edit_and_resolve(s, cases, rng, rr, kw)
+            if has_mux(st[-1]["sys"]) and rng.random() < 0.3:
+                shared_list_twin(st, gen_kw, rng, cases, rr, kw)
         n += 1
     if matrix:
         import matrix as _mx
@@ -159,6 +161,16 @@ def edit_and_resolve(s, cases, rng, rail_rep, kw):
     hosts = [n for n, c in comps.items() if c["cls"] not in ("PLoad", "ILoad", "RLoad")]
     muxin = [(m, x) for m, c in comps.items() if c["cls"] == "PMux" and len(c["par"]) > 1
              for x in c["par"] if comps[x]["par"]]
+    # mux inputs that were declared through a rail name (the raw references the library keeps)
+    railrefs = []
+    try:
+        for m, c in comps.items():
+            if c["cls"] == "PMux":
+                for ref in s._g.attrs["pnames"][s._g.attrs["nodes"][m]]:
+                    if ref not in comps:
+                        railrefs += [n for n, cc in comps.items() if cc["rail"] == ref]
+    except Exception:
+        railrefs = []
     edit = None
     try:
         r0 = rng.random()
@@ -173,6 +185,16 @@ def edit_and_resolve(s, cases, rng, rail_rep, kw):
                 s.set_sys_phases({})
                 kw = {k: v for k, v in kw.items() if k != "phase"}
                 what = "system phases cleared"
+        elif railrefs and r0 < 0.6:
+            # a mux input that was declared through its rail gets another rail (or none): the mux keeps that input
+            x = rng.choice(railrefs)
+            free = [r for r in ("rx1", "rx2", "") if r != comps[x]["rail"]]
+            s.change_comp(x, comp=build(desc_of(comps[x])), group=comps[x]["group"], rail=rng.choice(free))
+            pc = comps[x]["pconf"]
+            if pc["t"] != "none":
+                from rebuild import conf_of
+                s.set_comp_phases(x, conf_of(pc))
+            what = "mux input %s (declared by rail) re-railed" % x
         elif muxin and rng.random() < 0.6:
             # remove an intermediate component that is a mux input: the mux must keep its input order, with the removed
             # component's parent in its place (SysTree!DelCompEff)
@@ -204,10 +226,50 @@ def edit_and_resolve(s, cases, rng, rail_rep, kw):
         c = drv_solve.BuildFailure(s, "edit", {}, e).case(len(cases))
         cases.append(c)
         return
+    anom = project(s)["anom"]
+    if anom:
+        # the accepted edit left the registries inconsistent: there is no well-defined system to report on
+        c = drv_solve.BuildFailure(s, "edit", {"what": what}, RuntimeError("registries inconsistent after the edit: %r" % (anom[:3],))).case(len(cases))
+        c["after_edit"] = what
+        cases.append(c)
+        return
     c = drv_solve.solve_case(s, len(cases), rail_rep=rail_rep, **kw)
     c["after_edit"] = what
     if edit:
         c["edit"], c["hasedit"] = edit, True
+    cases.append(c)
+
+
+def shared_list_twin(st, gen_kw, rng, cases, rail_rep, kw):
+    """two systems are built from the same behaviour, the caller re-using ONE parent-list object for the mux of both; a
+    mux input of the first is then renamed (change_comp).  The second, never edited system must still be the system
+    that was built: its table is validated like any other"""
+    import random as _random
+    from model import build
+    from project import project
+    from rebuild import desc_of
+    k = rng.randrange(1 << 30)
+    shared = {}
+    try:
+        s1 = drv_solve.build_system(st, gen.Gen(_random.Random(k), **(gen_kw or {})), _random.Random(k + 1), shared=shared)
+        s2 = drv_solve.build_system(st, gen.Gen(_random.Random(k), **(gen_kw or {})), _random.Random(k + 1), shared=shared)
+        p1 = project(s1)
+        comps = {c["name"]: c for c in p1["comps"]}
+        ins = [x for c in p1["comps"] if c["cls"] == "PMux" for x in c["par"]]
+        if not ins:
+            return
+        x = rng.choice(ins)
+        d = desc_of(comps[x])
+        d["name"] = "zz"
+        s1.change_comp(x, comp=build(d), group=comps[x]["group"], rail="")     # (a rename may not keep the old rail name)
+    except drv_solve.BuildFailure as bf:
+        cases.append(bf.case(len(cases)))
+        return
+    except Exception as e:
+        cases.append(drv_solve.BuildFailure(None, "rename of a mux input", {}, e).case(len(cases)))
+        return
+    c = drv_solve.solve_case(s2, len(cases), rail_rep=rail_rep, **kw)
+    c["after_edit"] = "twin built from the same parent-list object; the other system's mux input %s was renamed" % x
     cases.append(c)
 
 
@@ -482,6 +544,7 @@ REGISTRY["C09"] = {"run": run_c09, "replay": replay_solve}
 # ---------------------------------------------------------------------------------------------
 # C03: the solver loop
 import re as _re
+import warnings as _warnings
 import solvertap
 import designed as _designed
 from decwire import cell as _cell
@@ -588,6 +651,23 @@ def run_c03(ctx):
             c["design"] = [{"name": n, "vin": _cell(d["vin"]), "vout": _cell(d["vout"]), "iin": _cell(d["iin"]),
                             "iout": _cell(d["iout"])} for n, d in dg.items()]
             nd += 1
+            if rng.random() < 0.4:
+                # the same object is re-parameterised in place (change_comp keeps every node) to a second designed steady
+                # state: nothing of the first solution may survive - the second one must be found just the same
+                try:
+                    from model import build as _build
+                    descs2, dg2 = _designed.design(sysst, rng)
+                    with _warnings.catch_warnings():
+                        _warnings.simplefilter("ignore")
+                        for d in descs2:
+                            s.change_comp(d["name"], comp=_build(d), rail=d["rail"], group=d["group"])
+                    c2 = record(s, {}, "designed")
+                    c2["has_design"] = True
+                    c2["design"] = [{"name": n, "vin": _cell(d["vin"]), "vout": _cell(d["vout"]), "iin": _cell(d["iin"]),
+                                     "iout": _cell(d["iout"])} for n, d in dg2.items()]
+                    c2["after_edit"] = "re-parameterised in place to a second designed state"
+                except Exception:
+                    pass
             if nd >= n_des:
                 break
         # committed reproducer of finding F19 (always executed)
